@@ -657,22 +657,48 @@ func (w *IngressWorld) RaceStep(s Step) {
 		r.task = w.Start("race", w.Ingress, req)
 		rc = append(rc, r)
 	}
-	if len(rc) < 2 {
+	if len(rc) < 2 && !(len(rc) == 1 && s.NewSpec != nil) {
 		w.Res.logf("race: fewer than two buildable requests, skipped")
 		return
 	}
 	w.Sched.SetArmed(func(l string) bool {
-		return strings.HasPrefix(l, "ingress.Server.ServeHTTP#") || strings.HasPrefix(l, "ingress.HMACAuth.Verify#") || strings.HasPrefix(l, "ingress.nonceCache.")
+		return strings.HasPrefix(l, "ingress.Server.ServeHTTP#") || strings.HasPrefix(l, "ingress.HMACAuth.Verify#") || strings.HasPrefix(l, "ingress.nonceCache.") ||
+			(s.NewSpec != nil && (strings.HasPrefix(l, "app.reloadConfig#") || strings.HasPrefix(l, "app.runtimeState.loadAuth#")))
 	})
 	w.Sched.DetectBlocked = true
 	tasks := make([]*Task, len(rc))
 	for i, r := range rc {
 		tasks[i] = r.task
 	}
+	// A configuration reload may run alongside the requests. The new file differs
+	// from the old one in nothing a request can observe (a comment), so every
+	// interleaving has to give the answers of the one configuration; what the
+	// step adds is the reload's effect on state that has to outlive it (the
+	// replay caches), judged by the steps that follow.
+	var reloadTask *Task
+	var oldFile []byte
+	if s.NewSpec != nil {
+		oldFile, _ = os.ReadFile(w.cfgPath)
+		if err := os.WriteFile(w.cfgPath, []byte(s.NewSpec.Render()), 0o600); err != nil {
+			w.Res.Trouble = err.Error()
+			return
+		}
+		reloadTask = w.Sched.Go("reload", w.group, func() any { return w.Node.Reload("verif") })
+		tasks = append([]*Task{reloadTask}, tasks...) // choice 0 = the reload while it runs
+	}
 	sw0 := w.Sched.Switches
 	kind := w.Sched.InterleaveBlocking(tasks, s.Sched)
 	w.Sched.SetArmed(nil)
 	w.Sched.DetectBlocked = false
+	if reloadTask != nil && kind == "done" {
+		if ok, _ := reloadTask.Result.(bool); ok {
+			w.Res.probe("race.reload.ok")
+			w.Spec = s.NewSpec
+		} else {
+			w.add("C18.reload.refused", "C18", "ingress/race", "a reload of a configuration that differs from the running one by a comment only was refused")
+			_ = os.WriteFile(w.cfgPath, oldFile, 0o600)
+		}
+	}
 	if kind != "done" {
 		if kind == "deadlock" {
 			w.add("race.deadlock", "C09,C12", "ingress/race", "concurrent ingress requests are stuck waiting for one another")
@@ -711,8 +737,13 @@ func (w *IngressWorld) RaceStep(s Step) {
 	}
 	// rate limit: whatever the order, the requests that got past the limiter at
 	// this one instant must fit burst + rps x window
+	if reloadTask != nil {
+		// limiters are re-armed by a reload: requests on either side of it are
+		// not in one window, and which side a racer was on is not observable
+		w.armLimiters(now)
+	}
 	for _, r := range rc {
-		if r.rt == nil || r.resp.Status == http.StatusTooManyRequests {
+		if r.rt == nil || r.resp.Status == http.StatusTooManyRequests || reloadTask != nil {
 			continue
 		}
 		lim := w.limiters[r.rt.Path]
@@ -746,6 +777,48 @@ func (w *IngressWorld) RaceStep(s Step) {
 		}
 		if n+prev == 1 && n == 1 {
 			w.Res.probe("race.one_of_duplicates_accepted")
+		}
+		// the steps after the race judge replays of what was honoured here
+		if ts, err := strconv.ParseInt(parts[2], 10, 64); err == nil {
+			if w.nonces[parts[0]] == nil {
+				w.nonces[parts[0]] = map[string]*nonceRec{}
+			}
+			rec := w.nonces[parts[0]][parts[1]]
+			if rec == nil {
+				rec = &nonceRec{}
+				w.nonces[parts[0]][parts[1]] = rec
+			}
+			if rec.accepted == nil {
+				rec.accepted = map[int64]bool{}
+			}
+			rec.accepted[ts] = true
+			if rt := w.Spec.route(parts[0]); rt != nil && rt.HMAC != nil {
+				if exp := time.Unix(ts, 0).Add(hmacTolerance(rt.HMAC)); exp.After(rec.expiry) {
+					rec.expiry = exp
+				}
+			}
+		}
+	}
+	// a racer that was turned away may still have used up its nonce
+	for _, r := range rc {
+		if r.key == "" || r.rt == nil || r.rt.HMAC == nil {
+			continue
+		}
+		parts := strings.SplitN(r.key, "|", 3)
+		ts, err := strconv.ParseInt(parts[2], 10, 64)
+		if err != nil {
+			continue
+		}
+		if w.nonces[parts[0]] == nil {
+			w.nonces[parts[0]] = map[string]*nonceRec{}
+		}
+		rec := w.nonces[parts[0]][parts[1]]
+		if rec == nil {
+			rec = &nonceRec{}
+			w.nonces[parts[0]][parts[1]] = rec
+		}
+		if exp := time.Unix(ts, 0).Add(hmacTolerance(r.rt.HMAC)); exp.After(rec.expiry) {
+			rec.expiry = exp
 		}
 	}
 	after, err := w.Listing()
